@@ -215,6 +215,20 @@ class TypesCodeGenerator:
         self._keyword_classes: List[str] = []
         self._special_classes: List[str] = []
         self._special_properties: List[str] = []
+        self._literal_class_owners: Dict[str, model.LiteralType] = {}
+
+    def _get_literal_class_name(
+        self, type_def: model.LSP_TYPE_SPEC, generated_name: str
+    ) -> str:
+        """Two different anonymous literals must not end up with the same class name
+        (`Foo.barBaz` and `FooBar.baz` both give `FooBarBazType`)."""
+        if type_def.kind != "literal":
+            return generated_name
+        name = generated_name
+        while self._literal_class_owners.get(name, type_def) is not type_def:
+            name += "_"
+        self._literal_class_owners[name] = type_def
+        return name
 
     def _add_keyword_class(self, class_name) -> None:
         if class_name not in self._keyword_classes:
@@ -476,7 +490,9 @@ class TypesCodeGenerator:
         self, class_name: str, type_def: model.LSP_TYPE_SPEC
     ) -> None:
         if type_def.kind == "literal" and len(type_def.value.properties) > 0:
-            type_def.name = type_def.name or _to_class_name(f"{class_name}_Type")
+            type_def.name = type_def.name or self._get_literal_class_name(
+                type_def, _to_class_name(f"{class_name}_Type")
+            )
             self._add_literal_type(type_def)
         elif type_def.kind == "or":
             count = itertools.count(1)
@@ -484,16 +500,19 @@ class TypesCodeGenerator:
                 try:
                     # Anonymous types have no name so generate a name. We append `_Type#`
                     # to generate the name, where `#` is a number.
-                    sub_type.name = sub_type.name or _to_class_name(
-                        f"{class_name}_Type{next(count)}"
+                    sub_type.name = sub_type.name or self._get_literal_class_name(
+                        sub_type, _to_class_name(f"{class_name}_Type{next(count)}")
                     )
                 except AttributeError:
                     pass
                 self._process_literal_types(class_name, sub_type)
         elif type_def.kind == "array":
             try:
-                type_def.element.name = type_def.element.name or _to_class_name(
-                    f"{class_name}_Type"
+                type_def.element.name = (
+                    type_def.element.name
+                    or self._get_literal_class_name(
+                        type_def.element, _to_class_name(f"{class_name}_Type")
+                    )
                 )
             except AttributeError:
                 pass
